@@ -80,6 +80,11 @@ def timer_oracle(ctx, stream, case_lines, rep):
         return ("timer:rotation-never-fired",
                 "a scheduled certificate rotation was never run by the real delayed queue (pkg/queue/delay.go)",
                 {"stream": stream, "ops": case_lines, "observed": impl, "correspondence": rep})
+    if impl.startswith("lost-rotations=") and impl != "lost-rotations=0":
+        return ("timer:rotation-lost-task-before-store",
+                "on the client's own delayed queue a zero-delay rotation task ran before its certificate was stored and was a "
+                "no-op: the certificate is never renewed (" + impl + ")",
+                {"stream": stream, "ops": case_lines, "observed": impl, "correspondence": rep})
     if impl.startswith("lost=") and impl != "lost=0 burst:lost-delayed=0,lost=0,early=0":
         return ("timer:queue-task-stranded",
                 "the real delayed queue (DelayQueueBuffer(0), as the node agent uses it) left pushed tasks on the heap: " + impl,
@@ -229,9 +234,10 @@ def run(ctx):
     ctx.diff_stream("cache", ctx.n(2500, 40000), oracle=oracle)
     ctx.diff_stream("conc", ctx.n(150, 2500), oracle=oracle)
     ctx.diff_stream("citadel", ctx.n(300, 6000), oracle=oracle)
+    ctx.diff_stream("file", ctx.n(60, 2000), oracle=oracle)
     ctx.diff_stream("sds", ctx.n(40, 1500), oracle=oracle)
     ctx.diff_stream("timer", ctx.n(8, 300), oracle=timer_oracle)
-    oracle_all(ctx, ["rotate", "cache", "conc", "citadel", "sds", "timer"])
+    oracle_all(ctx, ["rotate", "cache", "conc", "citadel", "file", "sds", "timer"])
 
 
 def replay(ctx, path):
